@@ -1,8 +1,8 @@
 """C08: calls bind by position and value; completed calls and matches leave no residue."""
-import os, re, json, random
+import os, re, json, random, copy
 from framework import Check, Case
-from jqlib import simple_run, RunRes, VERIF, run_impl
-import pyref, callref
+from jqlib import simple_run, RunRes, VERIF, run_impl, unhx
+import pyref, callref, treeref
 
 
 def call_depth_limit():
@@ -157,6 +157,315 @@ def residue_program(rng):
     return {"funcs": funcs, "begin": begin, "rules": rules, "end": end}
 
 
+# ---------------------------------------------------------------- a MISSING location passed as an argument
+# f(o.b), f(arr[3]), f(o.no.such.path), f($.missing): the parameter is the callee's own variable holding null.  Whatever the
+# callee does with it (assign, ++, op=, use it as a container) the caller's object / array / the input document stay as they were.
+
+MA_OBJ = {"a": 1.0, "s": "x", "sub": {"k": 2.0}, "l": [1.0, 2.0]}
+MA_ARR = [1.0, [2.0], {"k": 3.0}]
+MA_MISSING_OBJ = [["b"], ["zz"], ["sub", "none"], ["sub", "k2", "deep"], ["no", "such", "path"], ["l", 2.0], ["l", 5.0], ["l", 3.0, "x"],
+                  ["q", 0.0], ["q", 1.0, "z"], ["x y"], ["sub", "l", 2.0]]
+MA_EXISTING_OBJ = [["a"], ["l", 0.0], ["sub", "k"], ["l", -1.0]]
+MA_MISSING_ARR = [[3.0], [7.0], [1.0, 4.0], [2.0, "z"], [7.0, "a"], [1.0, 1.0, 0.0], [2.0, "k2", 1.0], [3.0, 0.0]]
+MA_EXISTING_ARR = [[0.0], [1.0, 0.0], [2.0, "k"], [-3.0]]
+# what the callee does with the parameter P: [(kind, keys, value)]
+MA_ACTIONS = [
+    [("set", [], 7.0)], [("set", [], "str")], [("inc", [], 1.0)], [("dec", [], 1.0)], [("preinc", [], 1.0)], [("op", [], ("+", 2.0))],
+    [("op", [], ("*", 3.0))], [("ifnull", [], 0.0)], [("ifnull", [], "dflt")], [("set", [], [1.0]), ("set", [1.0], 2.0)],
+    [("set", [], {"k": 1.0}), ("set", ["j"], 2.0)], [("set", [], 7.0), ("inc", [], 1.0)],
+    # the parameter used as a container
+    [("set", ["k"], 1.0)], [("set", [0.0], 1.0)], [("set", [2.0], 5.0)], [("set", ["x", "y"], 1.0)], [("inc", ["k"], 1.0)], [("inc", [1.0], 1.0)],
+    [("op", ["k"], ("+", 2.0))], [("set", ["k", 0.0], "v")],
+]
+
+
+def ma_action_src(actions, P, rng):
+    out = []
+    for kind, keys, val in actions:
+        t = treeref.src_path(P, keys, rng)
+        if kind == "set":
+            out.append("%s = %s" % (t, pyref.literal(val)))
+        elif kind == "inc":
+            out.append("%s++" % t)
+        elif kind == "dec":
+            out.append("%s--" % t)
+        elif kind == "preinc":
+            out.append("pre_ = ++%s" % t)      # a line starting with ++ would continue the previous statement
+        elif kind == "op":
+            out.append("%s %s= %s" % (t, val[0], pyref.literal(val[1])))
+        else:
+            out.append("if (%s == null) { %s = %s }" % (t, t, pyref.literal(val)))
+    return out
+
+
+def ma_apply(actions, v):
+    """value of the parameter after the callee's statements; raises treeref.RErr where a runtime error is documented"""
+    env = {"P": copy.deepcopy(v)}
+    for kind, keys, val in actions:
+        if kind == "set":
+            treeref.store(env, "P", keys, copy.deepcopy(val))
+        elif kind in ("inc", "dec", "preinc"):
+            old = pyref.num(treeref.read(env, "P", keys))
+            treeref.store(env, "P", keys, old + (-1.0 if kind == "dec" else 1.0))
+        elif kind == "op":
+            treeref.store(env, "P", keys, pyref.binop(val[0], treeref.read(env, "P", keys), val[1]))
+        elif treeref.read(env, "P", keys) is None:
+            treeref.store(env, "P", keys, val)
+    return env["P"]
+
+
+def missing_arg_case(rng):
+    """(program, input or None, outcome, stdout, final document or None, description) or None when outside the reference"""
+    host = rng.choice(["begin-obj", "begin-arr", "rule", "beginfile-arr", "local"])
+    if host in ("begin-obj", "rule", "local"):
+        data, missing, existing = MA_OBJ, MA_MISSING_OBJ, MA_EXISTING_OBJ
+    else:
+        data, missing, existing = MA_ARR, MA_MISSING_ARR, MA_EXISTING_ARR
+    base = "$" if host in ("rule", "beginfile-arr") else "o"
+    arity = rng.randint(1, 3)
+    j = rng.randrange(arity)
+    control = rng.random() < 0.12
+    actions = rng.choice(MA_ACTIONS[:12] if control else MA_ACTIONS)
+    args, vals = [], []
+    for i in range(arity):
+        if i == j:
+            keys = rng.choice(existing if control else missing)
+        elif rng.random() < 0.5:
+            keys = rng.choice(missing)
+        else:
+            keys = None
+        if keys is None:
+            c = float(100 * (i + 1))
+            args.append(pyref.literal(c))
+            vals.append(c)
+        else:
+            args.append(treeref.src_path(base, keys, rng))
+            try:
+                vals.append(copy.deepcopy(treeref.read({base: copy.deepcopy(data)}, base, keys)))
+            except (treeref.RErr, treeref.Unspecified):
+                return None
+    # a second parameter is overwritten as well, now and then
+    other = rng.choice([i for i in range(arity) if i != j]) if arity > 1 and rng.random() < 0.4 else None
+    levels = rng.choice(["direct", "direct", "through", "permuted", "both", "both"])
+    params = ["p%d" % (i + 1) for i in range(arity)]
+    qs = ["q%d" % (i + 1) for i in range(arity)]
+    body = ma_action_src(actions, params[j], rng)
+    if other is not None:
+        body.append("%s = 9" % params[other])
+    funcs = "function f(%s) {\n %s\n return %s\n}\n" % (", ".join(params), "\n ".join(body), params[j])
+    err = False
+    try:
+        inner = ma_apply(actions, vals[j])
+    except (treeref.RErr, pyref.RuntimeErr):
+        err = True
+        inner = None
+    except treeref.Unspecified:
+        return None
+    result = inner
+    callee = "f"
+    if levels == "through":
+        funcs += "function g(%s) {\n return f(%s)\n}\n" % (", ".join(qs), ", ".join(qs))
+        callee = "g"
+    elif levels == "permuted":
+        # the outer function hands its parameters on in rotated order; f still changes its own j-th parameter
+        rot = rng.randrange(arity)
+        order = [(i + rot) % arity for i in range(arity)]
+        funcs += "function g(%s) {\n return f(%s)\n}\n" % (", ".join(qs), ", ".join(qs[i] for i in order))
+        callee = "g"
+        src_j = order[j]
+        try:
+            result = ma_apply(actions, vals[src_j])
+            err = False
+        except (treeref.RErr, pyref.RuntimeErr):
+            err = True
+        except treeref.Unspecified:
+            return None
+        # which caller expression ends up in f's j-th parameter: make sure it is one of the probed kind
+        if isinstance(vals[src_j], float) and vals[src_j] >= 100 and rng.random() < 0.8:
+            return None
+    elif levels == "both":
+        # both levels change their own copy: the outer one after the inner call returned
+        act2 = rng.choice(MA_ACTIONS[:12])
+        b2 = ma_action_src(act2, qs[j], rng)
+        funcs += "function g(%s) {\n r_ = f(%s)\n %s\n return [r_, %s]\n}\n" % (", ".join(qs), ", ".join(qs), "\n ".join(b2), qs[j])
+        callee = "g"
+        if not err:
+            try:
+                result = [inner, ma_apply(act2, vals[j])]
+            except (treeref.RErr, pyref.RuntimeErr):
+                err = True
+            except treeref.Unspecified:
+                return None
+    call = "%s(%s)" % (callee, ", ".join(args))
+    lit = pyref.literal(data)
+    pd = pyref.pretty(data)
+    use = rng.choice(["print 'r', %s" % call, "res = %s\n print 'r', res" % call, "print 'r', [%s][0]" % call])
+    stmts = "print 'o', %s\n %s\n print 'o', %s" % (base, use, base)
+    if host in ("begin-obj", "begin-arr"):
+        prog, inp = funcs + "BEGIN {\n o = %s\n %s\n}\nEND { print 'e', o }" % (lit, stmts), None
+        tail = "e %s\n" % pd
+    elif host == "local":
+        # the container is a local of the calling function
+        prog, inp = funcs + "function h(o) {\n o = %s\n %s\n return o\n}\nBEGIN { print 'e', h() }" % (lit, stmts), None
+        tail = "e %s\n" % pd
+    elif host == "rule":
+        prog, inp = funcs + "{\n %s\n}\nEND { print 'e' }" % stmts, json.dumps(data)
+        tail = "e\n"
+    else:
+        prog, inp = funcs + "BEGINFILE {\n %s\n}\nENDFILE { print 'e', $ }" % stmts, json.dumps(data)
+        tail = "e %s\n" % pd
+    unchanged = "o %s\n" % pd
+    if err:
+        outcome, out = "runtime", unchanged
+    else:
+        outcome, out = "ok", unchanged + "r %s\n" % pyref.pretty(result) + unchanged + tail
+    what = "%s passed as argument %d of %d (%s), callee: %s" % ("an existing scalar member" if control else "a missing location", j + 1, arity, levels,
+                                                            "; ".join(body))
+    return prog, inp, outcome, out, (data if inp is not None else None), what, unchanged
+
+
+# ---------------------------------------------------------------- names bound by an alternative that then FAILS
+# match (s) { [count, "set"], [n, "add"] => ... }: with s = [7, "add"] the first alternative binds count before its second
+# position fails.  Only the alternative that matched binds names: count in the body is the global, and an assignment to it persists.
+
+MB_NAMES = ["count", "n", "x", "y", "t"]
+
+
+def mb_kinds(rng):
+    """the kind of value at each position (the same in every subject of a program: literals are only compared with their own kind)"""
+    ks = [rng.choice(["num", "num", "str", "str", ["num", "str"], ["str", "num", "num"]]) for _ in range(3)]
+    return ks
+
+
+def mb_subject(rng, kinds, n=None):
+    out = []
+    for kd in kinds[:n or rng.randint(1, 3)]:
+        if kd == "num":
+            out.append(float(rng.randint(1, 9)))
+        elif kd == "str":
+            out.append(rng.choice(["add", "set", "del"]))
+        else:
+            out.append(mb_subject(rng, kd, len(kd)))
+    return out
+
+
+def mb_never(rng, v):
+    return rng.choice([77.0, 555.0]) if isinstance(v, float) else rng.choice(["zzz", "never"])
+
+
+def mb_pattern(rng, subj, names, fail):
+    """an array pattern shaped like subj; names taken (without repetition) from `names`; with fail, one position holds a literal
+    that never matches, placed so that names are bound before it whenever possible (also inside a nested pattern)"""
+    names = list(names)
+    rng.shuffle(names)
+    n = len(subj)
+    bad = None
+    if fail:
+        bad = rng.choice([i for i in range(n) if i > 0] or [0]) if rng.random() < 0.8 else rng.randrange(n)
+
+    def one(i, v):
+        if isinstance(v, list):
+            if i == bad:
+                # the failure sits inside the nested pattern: a name is bound there first, when one is left
+                inner = [("plit", mb_never(rng, x)) for x in v]
+                if names and len(v) > 1 and rng.random() < 0.7:
+                    inner[0] = ("pname", names.pop())
+                return ("parr", inner)
+            if names and rng.random() < 0.4:
+                return ("pname", names.pop())
+            return ("parr", [one(None, x) for x in v])
+        if i == bad:
+            return ("plit", mb_never(rng, v))
+        if names and rng.random() < (0.75 if fail else 0.5):
+            return ("pname", names.pop())
+        return ("plit", v)
+    return ("parr", [one(i, v) for i, v in enumerate(subj)])
+
+
+def pat_names(p):
+    if p[0] == "pname":
+        return [p[1]]
+    if p[0] == "parr":
+        return [x for q in p[1] for x in pat_names(q)]
+    return []
+
+
+def match_residue_program(rng):
+    """a callref program: globals count/n/x/y/t; G = globals the bodies assign to (bound only by alternatives that always fail),
+    B = names bound by alternatives that can match (never assigned)"""
+    names = list(MB_NAMES)
+    rng.shuffle(names)
+    k = rng.randint(1, 3)
+    G, B = names[:k], names[k:]
+    kinds = mb_kinds(rng)
+    subjects = [mb_subject(rng, kinds) for _ in range(rng.randint(1, 4))]
+    leak = [0]
+
+    def body(kind):
+        show = [("var", x) for x in MB_NAMES]
+        if kind == "expr":
+            g = rng.choice(G)
+            return "expr", ("arr", [("var", g), ("bin", "+", ("var", g), ("num", 1.0))] + show)
+        st = [("print", [("str", "B")] + show)]
+        for g in rng.sample(G, rng.randint(1, len(G))):
+            w = rng.random()
+            if w < 0.35:
+                st.append(("incr", g))
+            elif w < 0.7:
+                st.append(("assign", g, ("bin", "+", ("var", g), ("num", float(rng.randint(1, 9))))))
+            else:
+                st.append(("assign", g, ("bin", "+", ("var", g), ("var", rng.choice(G)))))
+        st.append(("print", [("str", "b")] + show))
+        return "block", st
+
+    def cases():
+        out = []
+        for ci in range(rng.randint(1, 3)):
+            # every case is built around one subject: alternatives that bind names and then fail on it, then one that matches it
+            s_ = subjects[(ci + rng.randrange(2)) % len(subjects)]
+            alts = []
+            for _ in range(rng.choice([0, 1, 1, 2])):
+                alts.append(mb_pattern(rng, s_, rng.sample(G, rng.randint(1, len(G))) + rng.sample(B, rng.randint(0, min(1, len(B)))), True))
+                if set(pat_names(alts[-1])) & set(G):
+                    leak[0] += 1
+            if rng.random() < 0.25:
+                # a pattern of a length no subject has
+                alts.insert(rng.randint(0, len(alts)), ("parr", [("pname", x) for x in rng.sample(G + B, min(len(G + B), 4))] + [("plit", 1.0)]))
+            if rng.random() < 0.9 or not alts:
+                alts.append(mb_pattern(rng, s_, rng.sample(B, rng.randint(0, min(2, len(B)))), False))
+            if rng.random() < 0.3:
+                alts.append(mb_pattern(rng, rng.choice(subjects), rng.sample(G + B, rng.randint(1, 3)), rng.random() < 0.5))
+            if rng.random() < 0.1 and B:
+                alts.append(("pname", rng.choice(B)))
+            kind, b = body(rng.choice(["block", "block", "expr"]))
+            out.append((alts, kind, b))
+        return out
+
+    show = [("var", x) for x in MB_NAMES]
+    begin = [("assign", x, ("num", float(100 * (i + 1)))) for i, x in enumerate(MB_NAMES)] + [("assign", g, ("num", 0.0)) for g in callref.GLOBALS]
+    funcs = []
+    host = rng.choice(["rule", "rule", "func", "begin"])
+    m = ("match", ("dollar",) if host != "func" else ("var", "subj"), cases())
+    use = [("assign", "g3", m), ("print", [("str", "A"), ("var", "g3")] + show)]
+    if host == "func":
+        funcs.append(("mf", ["subj"], [("assign", "g3", m), ("return", ("var", rng.choice(G)))]))
+        use = [("print", [("str", "A"), ("call", "mf", [("dollar",)])] + show)]
+    if host == "begin":
+        for s_ in subjects:
+            mm = ("match", pylit(s_), cases())
+            begin += [("assign", "g3", mm), ("print", [("str", "A"), ("var", "g3")] + show)]
+        rules = []
+    else:
+        rules = [(None, use)]
+    return {"funcs": funcs, "begin": begin, "rules": rules, "end": [("print", [("str", "E")] + show)]}, subjects, leak[0]
+
+
+def pylit(v):
+    if isinstance(v, list):
+        return ("arr", [pylit(x) for x in v])
+    return ("num", v) if isinstance(v, float) else ("str", v)
+
+
 class C08(Check):
     pid = "C08"
     props = ["C08_frames.v"]
@@ -168,7 +477,12 @@ class C08(Check):
             "(conditionally) written -- set under a condition, accumulated, counted in a loop, loop variables, after recursion, "
             "after an early return -- called several times in a row from BEGIN, rules, END and other functions; expectation by "
             "an independent interpreter of the family; long histories: the same rule over n and n+5000 elements with n above the generated call depth limit; "
-            "recursion well inside and far beyond the limit after thousands of completed calls.  non-trivial = at least one "
+            "recursion well inside and far beyond the limit after thousands of completed calls; a missing member / out-of-range element / "
+            "missing nested path of an object, array, local or the input document passed as an argument (every position of arity 1-3, "
+            "directly, through a second function, in permuted order, changed at both levels) and then assigned, incremented, op='d "
+            "or used as a container by the callee: the caller's container and the document are printed unchanged; matches with 1-3 "
+            "cases x 1-3 alternatives where alternatives bind names (also in nested patterns) and then fail on a later literal, the "
+            "bodies reading every name and assigning to / incrementing globals of the leaked names, globals printed after the match. non-trivial = at least one "
             "call or match completes before another begins")
 
     def generate(self, rng, tier):
@@ -310,6 +624,42 @@ class C08(Check):
                         exp = ("runtime", pre_out + "A\n")
                     cases.append(Case(cid, simple_run(cid, prog, [], fuzz=False), {"prog": prog, "input": None, "outcome": exp[0], "stdout": exp[1],
                                                                                   "nested_frames": depth, "limit": L}, hist > 0, ("depth",)))
+        # ---- a missing location passed as an argument and then assigned / incremented / used as a container by the callee
+        n = 320 if tier == "quick" else 6000
+        k = 0
+        while k < n:
+            mc = missing_arg_case(rng)
+            if mc is None:
+                continue
+            prog, inp, outcome, out, final, what, unchanged = mc
+            cid = "a%d" % k
+            k += 1
+            meta = {"prog": prog, "input": inp, "outcome": outcome, "stdout": out, "what": what, "fam": "missing-arg"}
+            if outcome == "runtime":
+                # the property says the caller's data stays as it is, not that a null parameter cannot be used as a container
+                meta["ok_if_lines"] = [unchanged, unchanged]
+            if final is not None and outcome == "ok":
+                meta["final_doc"] = final
+            cases.append(Case(cid, simple_run(cid, prog, [inp] if inp is not None else []), meta, True))
+        # ---- names bound by a match alternative that then fails
+        n = 300 if tier == "quick" else 6000
+        k = 0
+        while k < n:
+            p, subjects, leak = match_residue_program(rng)
+            it = callref.Interp(p, L, max_steps=60000)
+            try:
+                outcome, out = it.run(subjects)
+            except (callref.TooDeep, RecursionError):
+                continue
+            if (leak == 0 or it.completed == 0) and rng.random() < 0.85:
+                continue
+            cid = "m%d" % k
+            k += 1
+            prog = callref.src_program(p)
+            inp = json.dumps(subjects)
+            cases.append(Case(cid, simple_run(cid, prog, [inp]), {"prog": prog, "input": inp, "outcome": outcome, "stdout": out, "fam": "match-residue",
+                                                                  "what": "multi-alternative cases; alternatives that bind names and then fail; the bodies assign to globals of those names"},
+                              leak > 0))
         return cases
 
     def oracle(self, case, impl):
@@ -320,6 +670,19 @@ class C08(Check):
             return None
         got = (impl.outcome, impl.stdout.decode("utf-8", "replace"))
         want = (m["outcome"], m["stdout"])
+        if got != want and "ok_if_lines" in m and got[0] == "ok":
+            # the callee got away with using its null parameter as a container: the caller's data must still be untouched
+            lines = [l + "\n" for l in got[1].split("\n") if l.startswith("o ")]
+            if lines == m["ok_if_lines"]:
+                return None
+            return "%s: the caller's container changed: %s" % (m.get("what"), clip(got[1]))
+        if got == want and "final_doc" in m:
+            try:
+                doc = treeref.loads(unhx(impl.json)) if impl.json not in ("!", "P", "~", "?") else None
+            except treeref.BadJson:
+                doc = None
+            if doc is None or not treeref.samenum(doc, m["final_doc"]):
+                return "%s: the input document changed: %s" % (m.get("what"), clip(unhx(impl.json).decode("utf-8", "replace") if doc is not None else impl.json))
         if got != want:
             return "expected %s %s, implementation %s %s%s" % (want[0], clip(want[1]), got[0], clip(got[1]),
                                                              " (first difference at byte %d)" % first_diff(want[1], got[1]))
